@@ -514,15 +514,66 @@ fn e7() -> Vec<Case> {
     out
 }
 
+/// E8: a `for` loop over a vec that its own body changes.  The loop visits the vec as it is when each
+/// element is asked for: elements pushed during the loop are visited, elements popped are not, an element
+/// overwritten ahead of the cursor is seen with its new value - with `continue` right after the change,
+/// `break` one iteration later, or neither; also through an explicit iterator driven by hand.
+fn e8() -> Vec<Case> {
+    let mut out = Vec::new();
+    let changes: Vec<(&str, Vec<Stmt>)> = vec![
+        ("push", vec![expr_stmt(invoke(var("v"), "push", vec![bin(BinOp::Add, var("x"), num(100.0))]))]),
+        ("push_twice", vec![expr_stmt(invoke(var("v"), "push", vec![num(7.0)])), expr_stmt(invoke(var("v"), "push", vec![num(8.0)]))]),
+        ("pop", vec![expr_stmt(invoke(var("v"), "pop", vec![]))]),
+        ("pop_twice", vec![expr_stmt(invoke(var("v"), "pop", vec![])), expr_stmt(invoke(var("v"), "pop", vec![]))]),
+        ("overwrite_last", vec![expr_stmt(Expr::SetIndex(Box::new(var("v")), Box::new(bin(BinOp::Sub, invoke(var("v"), "len", vec![]), num(1.0))), Box::new(s("overwritten"))))]),
+        ("pop_then_push", vec![expr_stmt(invoke(var("v"), "pop", vec![])), expr_stmt(invoke(var("v"), "push", vec![s("replaced")]))]),
+    ];
+    for len in [1usize, 3, 4] {
+        for at in 0..len.min(3) {
+            for (_, change) in &changes {
+                for exit in 0..3 {
+                    let mut then = change.clone();
+                    if exit == 1 {
+                        then.push(st(StmtKind::Continue));
+                    }
+                    let mut body = vec![print_stmt(var("x")), expr_stmt(assign("n", bin(BinOp::Add, var("n"), num(1.0)))), st(StmtKind::If(bin(BinOp::Eq, var("n"), num(at as f64 + 1.0)), then, None))];
+                    if exit == 2 {
+                        body.push(st(StmtKind::If(bin(BinOp::Gt, var("n"), num(at as f64 + 1.0)), vec![st(StmtKind::Break)], None)));
+                    }
+                    body.push(print_stmt(invoke(var("v"), "len", vec![])));
+                    let elems: Vec<Expr> = (0..len).map(|i| num((i as f64 + 1.0) * 10.0)).collect();
+                    let prog = vec![var_stmt("v", Expr::VecLit(elems)), var_stmt("n", num(0.0)), st(StmtKind::For("x".into(), var("v"), body)), print_stmt(var("v")), print_stmt(var("n"))];
+                    out.push(Case::new("E8_for_over_a_vec_its_body_changes", prog));
+                }
+            }
+        }
+    }
+    // an explicit iterator: created, the vec grown / shrunk, then driven to its end
+    for (_, change) in &changes {
+        for before in 0..3 {
+            let mut prog = vec![var_stmt("v", Expr::VecLit(vec![num(10.0), num(20.0), num(30.0)])), var_stmt("x", num(0.0)), var_stmt("it", invoke(var("v"), "iter", vec![]))];
+            for _ in 0..before {
+                prog.push(print_stmt(invoke(var("it"), "next", vec![])));
+            }
+            prog.extend(change.clone());
+            for _ in 0..5 {
+                prog.push(st(StmtKind::Try(vec![print_stmt(invoke(var("it"), "next", vec![]))], Some(("e".into(), vec![print_stmt(call(var("type"), vec![var("e")]))])), None)));
+            }
+            out.push(Case::new("E8_for_over_a_vec_its_body_changes", prog));
+        }
+    }
+    out
+}
+
 pub fn cases_for_c04(thorough: bool) -> Vec<Case> {
-    witnesses().into_iter().chain(e4()).chain(e5(if thorough { 5 } else { 4 })).chain(e6()).chain(e7()).collect()
+    witnesses().into_iter().chain(e4()).chain(e5(if thorough { 5 } else { 4 })).chain(e6()).chain(e7()).chain(e8()).collect()
 }
 
 pub fn run(ctx: &Ctx) -> Report {
     let thorough = ctx.thorough();
     let mut report = Report::new();
     let size = if thorough { 5 } else { 4 };
-    let cases = witnesses().into_iter().chain(e1()).chain(e2(thorough)).chain(e3(thorough)).chain(e4()).chain(e5(size)).chain(e6()).chain(e7());
+    let cases = witnesses().into_iter().chain(e1()).chain(e2(thorough)).chain(e3(thorough)).chain(e4()).chain(e5(size)).chain(e6()).chain(e7()).chain(e8());
     let hooks = Hooks {
         attribute: &|_c, _m, _o, _mm| None,
         nontrivial: &|_c, m| m.out.len() >= 1 || matches!(m.outcome, Outcome::Uncaught(_)),
@@ -532,7 +583,7 @@ pub fn run(ctx: &Ctx) -> Report {
     mcheck::fill_report(
         &mut report,
         &stats,
-        "every program of the families E1 (every binary/unary/logical operator x every ordered pair of operand kinds), E2/E3 (every operator chain of 3/4 operands in every grouping, printed with minimal and with full parentheses), E4 (evaluation-order probes for every operator and composite expression, compound assignment to every target kind), E5 (every statement tree up to the size bound over block/if/else/else-if/while/for/break/continue/return/var/assign/print, run on every input vector), E6 (operators applied again to the same operand objects) and E7 (a failing statement of 12 shapes - assignment to an undeclared name, a failing right-hand side, failing compound assignment, element / field / map writes that fail, pop of an empty vec, a var whose initialiser fails, a call of the wrong arity, a for over a non-iterable - at top level and in a function, run twice, with every name and container involved probed afterwards) is executed on the real interpreter and compared with M-eval (printed lines, outcome, error class). non-trivial = prints at least one line or ends in an error; distinct = distinct source text.",
+        "every program of the families E1 (every binary/unary/logical operator x every ordered pair of operand kinds), E2/E3 (every operator chain of 3/4 operands in every grouping, printed with minimal and with full parentheses), E4 (evaluation-order probes for every operator and composite expression, compound assignment to every target kind), E5 (every statement tree up to the size bound over block/if/else/else-if/while/for/break/continue/return/var/assign/print, run on every input vector), E6 (operators applied again to the same operand objects), E8 (a for loop over a vec that its own body grows, shrinks or overwrites at each position, with continue / break / neither, and a hand-driven iterator over a vec changed after it was made) and E7 (a failing statement of 12 shapes - assignment to an undeclared name, a failing right-hand side, failing compound assignment, element / field / map writes that fail, pop of an empty vec, a var whose initialiser fails, a call of the wrong arity, a for over a non-iterable - at top level and in a function, run twice, with every name and container involved probed afterwards) is executed on the real interpreter and compared with M-eval (printed lines, outcome, error class). non-trivial = prints at least one line or ends in an error; distinct = distinct source text.",
         json!({"statement_tree_nodes": size, "operand_kinds": operand_pool().len(), "operators": 19}),
     );
     report.assumptions = vec![
